@@ -64,6 +64,7 @@ def install(reg: Registry):
             ('elems', FA([z3.Const('v!ge', Val)], z3.Implies(h.bag(c.res, z3.Const('v!ge', Val)) > 0, is_VRef(z3.Const('v!ge', Val))), [h.bag(c.res, z3.Const('v!ge', Val))])),
             ('neighbours', FA([y], (h.cnt(c.res, y) > 0) == nav(HS(c), c.self, c.field_name, c.asset, y), [h.cnt(c.res, y)])),
             ('old-lists', frame(o, h)),
+            ('no-fresh-dicts', FA([l], z3.Implies(z3.And(l >= o.alloc, l < h.alloc), h.cls(l) != CLS_DICT), [h.cls(l)])),
         ]
 
     reg.add(Contract(MM + ':Model.get_associated_assets_by_field_name', {'self': Obj(MODEL), 'asset': Obj(ASSET), 'field_name': T.str},
